@@ -17,16 +17,16 @@ def run_seed(seed, props):
     vd = tempfile.mkdtemp(prefix='mx_vf_', dir='/tmp')
     res = {}
     try:
-        rc, out = sh(['git', '-C', '/repo', 'worktree', 'add', '--detach', wt, 'HEAD'])
+        rc, out = sh(['git', '-C', '/repo', 'worktree', 'add', '--detach', wt, PIN['commit']])
         assert rc == 0, out
         rc, out = sh(['git', 'apply', os.path.join(sd, 'patch.diff')], cwd=wt)
         if rc != 0:
             return seed, {'error': 'patch does not apply: ' + out[-200:]}
         for f in ['contracts', 'properties.map.json', 'known_findings.json']:
-            src = os.path.join('/verif', f)
+            src = os.path.join(PIN['verif'], f)
             (shutil.copytree if os.path.isdir(src) else shutil.copy)(src, os.path.join(vd, f))
         import re
-        rc, out = sh(['/verif/bin/govc', '-multi', ','.join(props), '-verif', vd, '-repo', wt])
+        rc, out = sh([PIN['govc'], '-multi', ','.join(props), '-verif', vd, '-repo', wt])
         got = False
         for l in out.splitlines():
             m = re.match(r'MULTI (C\d\d) violations=(\d+) ?(.*)', l)
@@ -41,6 +41,17 @@ def run_seed(seed, props):
         shutil.rmtree(wt, ignore_errors=True); shutil.rmtree(vd, ignore_errors=True)
     return seed, res
 ALL = False
+PIN = {}
+def pin(govc='/verif/bin/govc'):
+    """the run is made against the state at its start: later commits, rebuilt binaries and edited contract files do not leak in"""
+    d = tempfile.mkdtemp(prefix='pin_', dir='/tmp')
+    PIN['commit'] = subprocess.run(['git', '-C', '/repo', 'rev-parse', 'HEAD'], capture_output=True, text=True).stdout.strip()
+    shutil.copy(govc, os.path.join(d, 'govc')); PIN['govc'] = os.path.join(d, 'govc')
+    for f in ['contracts', 'properties.map.json', 'known_findings.json']:
+        src = os.path.join('/verif', f)
+        (shutil.copytree if os.path.isdir(src) else shutil.copy)(src, os.path.join(d, f))
+    PIN['verif'] = d
+    return d
 if __name__ == '__main__':
     args = sys.argv[1:]; j = 2
     if args[:1] == ['-j']: j = int(args[1]); args = args[2:]
@@ -48,6 +59,7 @@ if __name__ == '__main__':
     seeds = args or sorted(d for d in os.listdir('/verif/seeded') if os.path.isdir(os.path.join('/verif/seeded', d)))
     props = [c['property_id'] for c in json.load(open('/verif/MANIFEST.json'))['checks']]
     if args[:1] == ['-p']: props = args[1].split(','); args = args[2:]; seeds = args or seeds
+    pindir = pin()
     mpath = '/verif/seeded/MATRIX.json'
     matrix = json.load(open(mpath)) if os.path.exists(mpath) else {}
     with cf.ThreadPoolExecutor(j) as ex:
@@ -57,3 +69,4 @@ if __name__ == '__main__':
             caught = [p for p, r in res.items() if isinstance(r, dict) and r.get('exit') == 1]
             print(seed, 'caught by', caught or 'NONE', '(own property %s)' % ('caught' if own in caught else 'not claimed' if own not in props else 'MISSED'), flush=True)
             json.dump(matrix, open(mpath, 'w'), indent=1, sort_keys=True)
+    shutil.rmtree(pindir, ignore_errors=True)
